@@ -693,9 +693,15 @@ pub fn t11(prop: &str, seed: u64) -> RunDesc {
     d.cfg.dtor_api = 0;
     let k = *rng.pick(&[200u32, 400, 700]);
     d.threads.push(thread(1, "holder", vec![o(K::Pin, 0, 0, 0, 0), o(K::Signal, 1, 0, 0, 0), o(K::Await, 2, 0, 0, 0), o(K::Unpin, 0, 0, 0, 0)]));
+    // half of the runs: every garbage object was downgraded once, so that its destruction defers
+    // again (the release of its block) from inside the collection that runs it
+    let weaked = rng.chance(0.5);
     let mut p = vec![o(K::Await, 1, 0, 0, 0)];
     for _ in 0..k {
         p.push(o(K::New, 0, NONE_SLOT, 0, 0));
+        if weaked {
+            p.extend([o(K::Downgrade, 0, 0, 0, 0), o(K::DropW, 0, 0, 0, 0)]);
+        }
         p.push(o(K::DropRc, 0, 0, 0, 0));
     }
     p.extend([o(K::Pin, 0, 0, 0, 0), o(K::Flush, 0, 0, 0, 0), o(K::Unpin, 0, 0, 0, 0), o(K::Signal, 2, 0, 0, 0)]);
@@ -716,9 +722,21 @@ pub fn t11(prop: &str, seed: u64) -> RunDesc {
         1 => vec![o(K::New, 0, NONE_SLOT, 0, 0), o(K::DropRc, 0, 0, 0, 0)],
         _ => vec![o(K::Pin, 0, 0, 0, 0), o(K::New, 0, NONE_SLOT, 0, 0), o(K::DropRc, 0, 0, 0, 0), o(K::Unpin, 0, 0, 0, 0), o(K::Pin, 0, 0, 0, 0), o(K::Unpin, 0, 0, 0, 0)],
     };
+    // one run in twelve: the destructor enters and leaves hundreds of critical sections, each on
+    // a temporary participant of its own, and the thread that collects at the end has a small
+    // stack too: whatever those participants leave behind must not pile up into a recursion
+    let many = rng.chance(0.08);
+    if many {
+        let n = *rng.pick(&[1500u32, 2500]);
+        x.tls_ops = Vec::new();
+        for _ in 0..n {
+            x.tls_ops.extend([o(K::Pin, 0, 0, 0, 0), o(K::Unpin, 0, 0, 0, 0)]);
+        }
+        d.cfg.janitor_stack_kib = 128;
+    }
     d.threads.push(x);
-    d.cfg.step_cap = 1_500_000;
-    d.params = J::obj().set("template", "T11 thread tear-down on a small stack with a backlog of expired bags").set("garbage_objects", k).set("exit_stack_kib", stack);
+    d.cfg.step_cap = 3_000_000;
+    d.params = J::obj().set("template", "T11 thread tear-down on a small stack with a backlog of expired bags").set("garbage_objects", k).set("exit_stack_kib", stack).set("garbage_was_downgraded", weaked).set("many_critical_sections_in_destructor", many);
     d
 }
 
@@ -757,7 +775,19 @@ pub fn t12(prop: &str, seed: u64) -> RunDesc {
         }
         d.threads.push(thread(2, "advancer", a));
     }
-    d.params = J::obj().set("template", "T12 exited participants unlinked during the scan of a collection round").set("exiters", exiters).set("advancers", advancers);
+    // one more participant retires 70-140 things inside a single critical section: every 64th
+    // deferral runs an advance attempt (and with it the scan that unlinks the exited
+    // participants) under the user's live guard, which must stay where it was announced
+    let retirer = rng.chance(0.5);
+    if retirer {
+        let mut r = vec![o(K::Pin, 0, 0, 0, 0)];
+        for _ in 0..70 + rng.below(71) {
+            r.push(o(K::Defer, 0, rng.below(10) as u32, 0, 0));
+        }
+        r.push(o(K::Unpin, 0, 0, 0, 0));
+        d.threads.push(thread(2, "retirer", r));
+    }
+    d.params = J::obj().set("template", "T12 exited participants unlinked during the scan of a collection round").set("retirer_in_one_cs", retirer).set("exiters", exiters).set("advancers", advancers);
     d
 }
 
